@@ -99,6 +99,38 @@ pub fn visibility() -> Vec<Ill> {
   out
 }
 
+/// A name used where its binding is out of scope: every binding construct x every position just
+/// outside its scope. Each program contains exactly one such use (`GHOST`), nothing else is wrong.
+pub fn scope_escape() -> Vec<Ill> {
+  let cases: [(&str, &str); 16] = [
+    ("if-let binding used in the else branch", "if let Some(ghost) = o { ghost } else { ghost }"),
+    ("if-let binding used in an else-if condition", "if let Some(ghost) = o { ghost } else if ghost > 0 { 1 } else { 2 }"),
+    ("if-let binding used in a later else branch", "if let Some(ghost) = o { ghost } else if n > 0 { 1 } else { ghost }"),
+    ("if-let binding used after the if", "{ let r = if let Some(ghost) = o { ghost } else { 0 }; r + ghost }"),
+    ("if-let binding used in its own scrutinee", "if let Some(ghost) = Opt.Some(ghost) { ghost } else { 0 }"),
+    ("match-arm binding used in another arm", "match o { Some(ghost) -> ghost, None -> ghost }"),
+    ("match-arm binding used after the match", "{ let r = match o { Some(ghost) -> ghost, None -> 0 }; r + ghost }"),
+    ("or-pattern binding of one arm used in the next arm", "match e { A(ghost) | B(ghost) -> ghost, C -> ghost }"),
+    ("block-local let used after the block", "{ let r = { let ghost = 1; ghost }; r + ghost }"),
+    ("let used before its definition", "{ let r = ghost + 1; let ghost = 2; r + ghost }"),
+    ("let used in its own initialiser", "{ let ghost = ghost + 1; ghost }"),
+    ("lambda parameter used after the lambda", "{ let f = (ghost: int) -> ghost + 1; f(1) + ghost }"),
+    ("nested-lambda parameter used in the outer lambda", "{ let f = (a: int) -> { let g = (ghost: int) -> ghost + a; g(1) + ghost }; f(1) }"),
+    ("tuple-pattern binding used outside its block", "{ let r = { let (ghost, _) = (1, 2); ghost }; r + ghost }"),
+    ("struct-pattern binding used outside its block", "{ let r = { let { a as ghost, b } = P.init(1, 2); ghost + b }; r + ghost }"),
+    ("parameter of another function", "Main.other(1) + ghost"),
+  ];
+  let mut out = vec![];
+  for (what, body) in cases {
+    let text = format!(
+      "class Opt<T>(None, Some(T)) {{}}\nclass E(A(int), B(int), C) {{}}\nclass P(val a: int, val b: int) {{}}\nclass Main {{\n  function other(ghost: int): int = ghost\n  function run(o: Opt<int>, e: E, n: int): int =\n    {body}\n  function main(): unit = {{ }}\n}}\n"
+    )
+    .replace("function other(ghost: int): int = ghost", if what.starts_with("parameter of another") { "function other(ghost: int): int = ghost" } else { "function other(k: int): int = k" });
+    out.push(Ill { kind: "scope-escape", what: what.to_string(), modules: vec![("Main".into(), text)], target: "Main".into() });
+  }
+  out
+}
+
 pub struct ArityCase {
   pub what: String,
   pub text: String,
